@@ -54,7 +54,7 @@ PLAN = {
     ),
     "C02": dict(
         verus=dict(quick=["drv", "drvo"], thorough=["drv", "drvo"]),
-        kani=dict(quick=["nd_drivers_bounded"], thorough=["nd_drivers_bounded", "backend_bounded"]),
+        kani=dict(quick=["nd_drivers_bounded", "backend_bounded"], thorough=["nd_drivers_bounded", "backend_bounded"]),
         level="proof",
     ),
 }
@@ -88,7 +88,7 @@ PLAN["C13"] = dict(
 
 PLAN["C17"] = dict(
     verus=dict(quick=["time"], thorough=["time"]),
-    kani=dict(quick=["time_nat", "time_delta_group", "time_delta_scaling"], thorough=["time_nat", "time_delta_group", "time_delta_scaling", "time_delta_scaling_k3", "time_components"]),
+    kani=dict(quick=["time_nat", "time_delta_group", "time_delta_scaling", "time_listed_bounded"], thorough=["time_nat", "time_delta_group", "time_delta_scaling", "time_delta_scaling_k3", "time_components", "time_listed_bounded"]),
     level="proof",
 )
 PLAN["C16"] = dict(
@@ -115,7 +115,7 @@ PLAN["C06"] = dict(
 )
 PLAN["C09"] = dict(
     verus=dict(quick=["map.f64", "rank", "gen"], thorough=["map.f64", "map.of64", "rank", "gen"]),
-    kani=dict(quick=["gen_linspace"], thorough=["gen_linspace", "collect_bounded"]),
+    kani=dict(quick=["gen_linspace", "backend_bounded"], thorough=["gen_linspace", "collect_bounded", "backend_bounded"]),
     level="proof",
 )
 PLAN["C10"] = dict(
@@ -191,8 +191,8 @@ DETAILS = {
                 not_covered=["value of ffi::binom"],
                 assumptions=["A-REAL", "A-ITER", "A-FFI (binom)", "A-LEN", "A-MONO", "A-EXTRACT", "A-TOOLS"]),
     "C02": dict(text=_V + ": trace and stored-exactly-once postconditions of the caller-buffer drivers rolling_apply_to, rolling2_apply_to, rolling_apply_idx_to, rolling2_apply_idx_to, rolling_custom_to, and of the Option-dispatching / iterator-form drivers rolling_apply, rolling2_apply, rolling_apply_idx (leading Nones, FIFO removal column, delivery to the buffer or as a new container); the trait contract every client unit relies on is discharged by these functions.",
-                note="the stateful Iterator::map + trusted collector of the iterator forms is modelled eagerly (A-ITER, rollmodel.rs); the Vec and ndarray fast paths rolling_custom, rolling_apply, rolling_apply_idx, rolling2_apply are proved against the same contracts (unit drvo; ndarray: the ArrayView1 instance of the macro, feature ndarray); Kani (BOUNDED) runs the overridden ndarray drivers on reversed / strided views of 4 elements",
-                not_covered=["fast paths rolling2_apply_idx of impl_vec1! / ndarray", "rolling2_apply_idx iterator form (bounded only)", "rolling_custom / rolling_custom_iter iterator forms (default body)", "Arc / Polars overrides"],
+                note="the stateful Iterator::map + trusted collector of the iterator forms is modelled eagerly (A-ITER, rollmodel.rs); the Vec and ndarray fast paths rolling_custom, rolling_apply, rolling_apply_idx, rolling2_apply are proved against the same contracts (unit drvo; ndarray: the ArrayView1 instance of the macro, feature ndarray); Kani (BOUNDED) runs the overridden ndarray drivers on reversed / strided views of 4 elements, the five Vec fast-path drivers on series of length 1 and 3, and the default slice driver on a VecDeque of length 0, 1, 3",
+                not_covered=["fast paths rolling2_apply_idx of impl_vec1! / ndarray", "rolling2_apply_idx iterator form (bounded only)", "rolling_custom / rolling_custom_iter iterator forms (default body): bounded only (VecDeque, length 0, 1, 3)", "Polars overrides"],
                 assumptions=["A-ITER", "A-EXTRACT", "A-TOOLS"]),
     "C03": dict(text=_V + ": cached-extreme invariants and window-function postconditions of ts_vmin/vmax/vargmin/vargmax_to (exact).",
                 note="ts_vzscore_to is in the feat units; ts_vminmaxnorm and ts_vrank are checked by the bounded rolling backstop only (Kani, length 4)",
@@ -223,8 +223,8 @@ DETAILS = {
     "C12": dict(text=_V + ": vpartition / varg_partition (arity, padding, index ranges) and vquantile (errors, nulls, index ranges, order statistics for lower / higher / midpoint).",
                 note="sorting by assumed contract (A-SORT); vquantile needs the seed-retry policy (unstable query)",
                 not_covered=["linear interpolation value of vquantile", "vrank (Kani, length <= 3) and vpercentile_of (Kani, length <= 4): bounded only"], assumptions=["A-SORT", "A-REAL", "A-ITER", "A-EXTRACT", "A-TOOLS"]),
-    "C13": dict(text=_V + ": positional postconditions of shift, vshift, vdiff, vpct_change (every lag incl. 0, |lag| >= len, fill values), ffill / bfill (nearest earlier / later non-null element, else the default, else null; via ffill_mask / bfill_mask with the null test as mask), fill / fill_mask (touches only masked elements), vclip (each element alone, nulls stay null; idempotence and containment for lower <= upper as a lemma).",
-                note="the stateful map of ffill / bfill by the eager model (A-ITER, mapmodel.rs)", not_covered=["vabs / abs (the scalar clause is in C15)", "ffill_mask / bfill_mask with an arbitrary mask"], assumptions=["A-REAL", "A-ITER", "A-MONO", "A-EXTRACT", "A-TOOLS"]),
+    "C13": dict(text=_V + ": positional postconditions of shift, vshift, vdiff, vpct_change (every lag incl. 0, |lag| >= len, fill values), ffill / bfill (nearest earlier / later non-null element, else the default, else null; via ffill_mask / bfill_mask with the null test as mask), fill / fill_mask (touches only masked elements), vclip (each element alone, nulls stay null; idempotence and containment for lower <= upper as a lemma), vabs (each element alone, nulls stay null).",
+                note="the stateful map of ffill / bfill by the eager model (A-ITER, mapmodel.rs)", not_covered=["abs (MapBasic, plain family); vabs is under contract over the scalar interface vabs_spec (the scalar clause is in C15)", "ffill_mask / bfill_mask with an arbitrary mask"], assumptions=["A-REAL", "A-ITER", "A-MONO", "A-EXTRACT", "A-TOOLS"]),
     "C14": dict(text=_V + ": vcut (label-count errors, unique enclosing interval, open bounds label every value, nulls get the null label) in three instantiations, from the extracted scan loop.  Kani (BOUNDED, sorted series of length <= 5) decides vsorted_unique_idx First / Last and vsorted_unique.",
                 note="run de-duplication is bounded only", not_covered=["unbounded argument for vsorted_unique*"], assumptions=["A-REAL", "A-ITER", "A-MONO", "A-EXTRACT", "A-TOOLS"]),
     "C16": dict(text=_V + ": into_unit (floor law, NaT), NaT predicates, calendar conversions per unit, NaT absorption of the operators; Kani: NaT and unit-identity laws over the full i64 domain; BOUNDED: ms / us calendar conversion read back with chrono's accessors on +-4096 units around the epoch.",
